@@ -93,7 +93,10 @@ def check_read(uri, coll, label="", deep=True, cooler_obj=None):
             if info.get("nnz") != len(exp):
                 errs.append("info.nnz %r != %d" % (info.get("nnz"), len(exp)))
             want_mode = "symmetric-upper" if coll.symmetric else "square"
-            if info.get("storage-mode") != want_mode:
+            if getattr(coll, "no_mode_attr", False) and info.get("storage-mode") is None:
+                if c.storage_mode != "symmetric-upper":
+                    errs.append("a collection without the storage-mode attribute must read as symmetric-upper")
+            elif info.get("storage-mode") != want_mode:
                 errs.append("storage-mode %r != %r" % (info.get("storage-mode"), want_mode))
     except Exception as e:  # reading an acknowledged collection must not fail
         errs.append("read raised %s: %s" % (type(e).__name__, str(e)[:200]))
